@@ -30,6 +30,7 @@ __all__ = [
     "Ctx",
     "Engine",
     "run_path",
+    "as_start",
     "PathAbort",
     "EngineError",
     "explore",
@@ -136,9 +137,10 @@ def cv_of(x):
 
 
 class Atom(object):
-    __slots__ = ("id", "name", "_z", "zf", "lo", "hi", "cv", "kind", "key")
+    __slots__ = ("id", "name", "_z", "zf", "lo", "hi", "cv", "kind", "key", "defn")
 
     def __init__(self, id, name, zf, lo, hi, cv, kind, key=None):
+        self.defn = None
         self.id = id
         self.name = name
         self._z = None
@@ -524,6 +526,16 @@ class SymBitLength(object):
         return "<SymBitLength of %r>" % (self.x,)
 
 
+def _ite_arms(x):
+    """(c, a, b) if x is exactly one if-then-else atom (scaled arms returned), else None."""
+    if isinstance(x, SymInt) and len(x.t) == 1:
+        ((at, co),) = x.t.items()
+        if at.defn is not None and at.defn[0] == "ite":
+            _, c, a, b = at.defn
+            return c, a * co + x.k, b * co + x.k
+    return None
+
+
 def compare0(d, op):
     """d <op> 0 for d int or SymInt; returns bool or SymBool."""
     if isinstance(d, int):
@@ -565,6 +577,15 @@ def compare0(d, op):
     else:
         if (lo is not None and lo > 0) or (hi is not None and hi < 0):
             return True
+    arms = _ite_arms(d)
+    if arms is not None:
+        # ite(c, a, b) <op> 0 when both arms are decided: the condition itself (or a constant)
+        c, a, b = arms
+        ra, rb = compare0(a, op), compare0(b, op)
+        if isinstance(ra, bool) and isinstance(rb, bool):
+            if ra == rb:
+                return ra
+            return c if ra else c.negate()
     cur().n_cmp += 1
     return SymBool.cmp(d, op)
 
@@ -892,6 +913,14 @@ def sym_abs(x):
         return x
     if hi is not None and hi <= 0:
         return -x
+    arms = _ite_arms(x)
+    if arms is not None:
+        c, a, b = arms
+        # |ite(c, a, b)| with a == -b  is |a|
+        s = a + b
+        if isinstance(s, int) and s == 0:
+            return sym_abs(a)
+        return cur().def_ite(c, sym_abs(a), sym_abs(b))
     return cur().def_abs(x)
 
 
@@ -1047,6 +1076,7 @@ class Ctx(object):
         self.atoms = []
         self.input_atoms = {}
         self.interned = {}
+        self.decided = {}
         self.max_decisions = opts.get("max_decisions", 4000)
         self.n_cmp = 0
         self.proved = 0
@@ -1299,7 +1329,10 @@ class Ctx(object):
                 "def",
             )
 
-        return SymInt.mk({self._intern(key, mk): 1}, 0)
+        at = self._intern(key, mk)
+        if at.defn is None:
+            at.defn = ("ite", c, a, b)
+        return SymInt.mk({at: 1}, 0)
 
     def def_abs(self, x):
         key = ("abs", _key(x))
@@ -1441,6 +1474,19 @@ class Ctx(object):
         Decision log entries are ``side`` or ``(payload, side)`` (concretisation: payload is the
         value tested, which must be replayed verbatim)."""
         side = bool(sb.cv)
+        # a condition already decided on this path (syntactically identical, or its negation) is implied by
+        # the path condition: no decision, no query
+        if sb.op is not None and payload is None:
+            dk = sb.d.key()
+            hit = self.decided.get((sb.op, dk))
+            if hit is None:
+                hit2 = self.decided.get((_NEG[sb.op], dk))
+                if hit2 is not None:
+                    hit = not hit2
+            if hit is not None:
+                if hit != side:
+                    raise EngineError("shadow value contradicts an earlier decision on the same condition")
+                return hit
         i = len(self.decisions)
         if i >= self.max_decisions:
             self.nonexhaustive = "decision cap %d reached" % self.max_decisions
@@ -1462,11 +1508,14 @@ class Ctx(object):
             r, m = eng.check(other)
             if r == z3.sat:
                 sib = (not side) if payload is None else (payload, not side)
-                self.pending.append((self.decisions + [sib], self._model_to_inputs(m)))
+                # lazily materialised sibling prefix: (shared decision list, length, flipped entry)
+                self.pending.append(_Pending(self.decisions, i, sib, self._model_to_inputs(m)))
             elif r != z3.unsat:
                 self.nonexhaustive = "solver returned unknown on a branch feasibility query"
             eng.assert_decision(ent, zt if side else z3.Not(zt))
         self.decisions.append(ent)
+        if sb.op is not None:
+            self.decided[(sb.op, sb.d.key())] = side
         self._narrow(sb, side)
         return side
 
@@ -1655,6 +1704,26 @@ def _zkey(c):
 
 
 # ---------------------------------------------------------------------- exploration
+class _Pending(object):
+    """A queued sibling path.  Its prefix is decisions[:n] + [sib]; the list is shared with the path that
+    found it (only ever appended to), so a path with N decisions costs O(N) memory, not O(N^2)."""
+
+    __slots__ = ("decisions", "n", "sib", "inputs")
+
+    def __init__(self, decisions, n, sib, inputs):
+        self.decisions = decisions
+        self.n = n
+        self.sib = sib
+        self.inputs = inputs
+
+    def materialise(self):
+        return (self.decisions[: self.n] + [self.sib], self.inputs)
+
+
+def as_start(item):
+    return item.materialise() if isinstance(item, _Pending) else item
+
+
 class PathResult(object):
     __slots__ = (
         "outcome",
@@ -1725,7 +1794,7 @@ def explore(fn, start=None, opts=None, max_paths=None, deadline=None, on_path=No
             deadline is not None and time.time() > deadline
         ):
             break
-        prefix, inputs = stack.pop()
+        prefix, inputs = as_start(stack.pop())
         ctx, res = run_path(fn, engine, prefix, inputs)
         n += 1
         stack.extend(ctx.pending)
@@ -1734,4 +1803,4 @@ def explore(fn, start=None, opts=None, max_paths=None, deadline=None, on_path=No
         if on_path is not None:
             on_path(res)
         results.append(res)
-    return {"results": results, "leftover": stack, "nonexhaustive": nonexh}
+    return {"results": results, "leftover": [as_start(x) for x in stack], "nonexhaustive": nonexh}
